@@ -84,6 +84,11 @@ class EFLRSet(LogicalRecord):
 
         self._eflr_item_list.append(child)
 
+    def unregister_item(self, child: EFLRItem) -> None:
+        """Remove a child EFLRItem from this EFLRSet (e.g. if creating the item has failed)."""
+
+        self._eflr_item_list = [item for item in self._eflr_item_list if item is not child]
+
     def get_all_eflr_items(self) -> list[EFLRItem]:
         """Return a list of all EFLRItem instances registered with this EFLRSet instance."""
 
